@@ -11,7 +11,8 @@ LEVEL = "model_checking"
 RULE = ("every [ molecules ] list of <=3 entries over 4 molecule types (single- and multi-atom residues, repeated names) with "
         "counts {1,2} x box source {-box, -dens 500, -dens 1000} x input {none, -c complete, -c partial prefix, -mc partial} "
         "x -res {none, one name} x {-grid file, default grid spacing}; every trajectory with <=1 direction deviation and <=1 "
-        "start-point deviation (thorough <=2). Oracle: the .gro atom list equals the reference expansion of the topology "
+        "start-point deviation (thorough <=2); plus chains whose rebuilt residues lie between supplied ones (-c + -res, rewind length 2/3) "
+        "under every schedule of <=2 injected placement failures. Oracle: the .gro atom list equals the reference expansion of the topology "
         "(residue number, residue name, atom name, in order; count line), all coordinates finite, box line = requested box / "
         "box of the input structure when one is given / cubic box with L^3 * density = total mass * 1.660541 (5 decimals). "
         "distinct_nontrivial = distinct (system, options) with >=2 molecule types or a partial input")
@@ -68,12 +69,18 @@ def cases(tier):
                     continue     # box smaller than twice the cut-off even for 0.15 nm residues
             yield dict(mols=mols, tier=tier, idx=i, **o)
             i += 1
+    # rebuilt residues lying between supplied ones, with injected placement failures (rewinds that span a supplied residue)
+    for mols in ([("CH4", 1)], [("CH4", 2)], [("MID7", 1)], [("W", 1), ("CH4", 1)]):
+        for res in ("S", "B") if mols[-1][0] == "CH4" else ("S", "K"):
+            for nrewind in (2, 3):
+                yield dict(mols=mols, tier=tier, idx=i, boxsrc="box", inp="c-complete", res=res, grid=True, fault=2, nrewind=nrewind)
+                i += 1
 
 
 def materialise(cfg):
     mols = [tuple(m) for m in cfg["mols"]]
     types = sorted({n for n, _ in mols})
-    sysd = dict(types=types, molecules=mols, kwargs=dict(nrewind=2, maxiter=5), mass_mode=cfg.get("mass_mode"))
+    sysd = dict(types=types, molecules=mols, kwargs=dict(nrewind=cfg.get("nrewind", 2), maxiter=5), mass_mode=cfg.get("mass_mode"))
     box = [4.0, 4.5, 5.0]
     if cfg["boxsrc"] in ("box", "otherbox"):
         sysd["box"] = box if cfg["boxsrc"] == "box" else [5.0, 5.0, 5.0]
@@ -118,8 +125,8 @@ def materialise(cfg):
     return sysd, exp_box
 
 
-def run_exec(sysd, chooser):
-    return G.run_gen_coords(sysd, chooser)
+def run_exec(sysd, chooser, fault=False):
+    return G.run_gen_coords(sysd, chooser, fault_steps=bool(fault), fault_attempts=bool(fault))
 
 
 def judge(cfg, sysd, exp_box, res, choices):
@@ -167,14 +174,16 @@ def judge(cfg, sysd, exp_box, res, choices):
 def run_case(cfg):
     sysd, exp_box = materialise(cfg)
     if "choices" in cfg:
-        res = run_exec(sysd, Chooser(cfg["choices"]))
+        res = run_exec(sysd, Chooser(cfg["choices"]), cfg.get("fault"))
         return dict(evals=1, keys=[], violations=judge(cfg, sysd, exp_box, res, cfg["choices"]), stats={})
     d = 1 if cfg["tier"] == "quick" else 2
     # start-point deviations only where the grid is the 8-point user grid (polyply's own grids have 100+ points)
     bounds = {"vec": d, "grid": 1 if "grid" in sysd else 0, "*": d}
+    if cfg.get("fault"):
+        bounds = {"fault": cfg["fault"], "vec": 0, "grid": 0, "*": cfg["fault"]}
     evals, keys, viols, traces, ntrans = 0, set(), [], set(), 0
     stats = dict(executions=0, horizon_cuts=0, unowned_random_draws=0)
-    for prefix, ch, res in explore(lambda c: run_exec(sysd, c), bounds, stats=stats, max_execs=None):
+    for prefix, ch, res in explore(lambda c: run_exec(sysd, c, cfg.get("fault")), bounds, stats=stats, max_execs=None):
         evals += 1
         ntrans += len(ch.trace)
         stats["executions"] += 1
